@@ -1976,6 +1976,37 @@ impl Sim {
                     break;
                 }
             }
+            // ...and asked: the same few instants through every kept provider in turn (what one
+            // provider's lookup leaves behind must not answer for another: seeded change M231,
+            // lookup brackets in 64 slots indexed by a provider id modulo 64)
+            if violation.is_none() && hoard.len() >= 2 {
+                let mut instants: Vec<i128> = vec![3_786_825_600, 2_500_000_000, 3_345_062_400];
+                if let Some(&(ts, _)) = ctx.images[hoard[hoard.len() / 2].image].table.last() {
+                    instants.push(ts as i128 + 5);
+                }
+                'outer: for &t in &instants {
+                    for (k, h) in hoard.iter().enumerate() {
+                        let table = &ctx.images[h.image].table;
+                        let want = crate::refdata::model_answer(table, t).map(|d| d as f64);
+                        let got = catch_unwind(AssertUnwindSafe(|| {
+                            oracle::tai_epoch_ns(t * 1_000_000_000).leap_seconds_with(true, h.provider.clone())
+                        }));
+                        if !matches!(got, Ok(g) if g == want) {
+                            violation = Some(Violation {
+                                oracle: "O4".into(),
+                                op_index: sc.ops.len().saturating_sub(1),
+                                message: format!(
+                                    "kept provider {k} of {} (loaded from {}): at TAI second {t} since 1900 it answers {:?}, its file's table says {want:?} (every kept provider asked in turn)",
+                                    hoard.len(),
+                                    ctx.images[h.image].name,
+                                    got.ok().flatten()
+                                ),
+                            });
+                            break 'outer;
+                        }
+                    }
+                }
+            }
         }
         drop(hoard);
         let nontrivial = any_fault_or_race && any_ok_load_checked;
